@@ -1,8 +1,9 @@
 #!/usr/bin/env python
 """Regenerate obligations.baseline.json from the evidence files of a clean run: the ids of the proof
 obligations every later run of the same tier must generate again (vacuity guard: a change that makes
-obligations disappear is reported as undecided, never as held).  C12's set depends on a CPU budget and is
-not pinned."""
+obligations disappear is reported as undecided, never as held).  C12 is pinned too since every model's identity closes well
+inside the direction-search budget (a model that falls back to its numeric stand-in is then reported as
+undecided, not as held)."""
 import glob
 import json
 import os
@@ -12,7 +13,7 @@ out = {}
 for f in sorted(glob.glob(os.path.join(here, "evidence", "C*.json"))):
     e = json.load(open(f))
     pid, tier = e["property_id"], e.get("tier", "quick")
-    if pid == "C12" or tier != "quick":
+    if tier != "quick":
         continue
     # obligations that are only registered when the solver decides them within its budget are not pinned
     ids = [k for k, v in e["coverage"].get("obligation_ids", {}).items()
